@@ -8,6 +8,23 @@ use vcommon::Report;
 
 type V = Option<(String, String, String)>;
 
+/// When set (C08 runs), update_rayon must leave exactly the state update leaves; otherwise (C02)
+/// adapters are judged on what is observable: count, hash, extended output, and the same after
+/// further input.
+pub static EXACT_RAYON: std::sync::atomic::AtomicBool = std::sync::atomic::AtomicBool::new(false);
+
+fn same_observable(a: &blake3::Hasher, b: &blake3::Hasher, more: &[u8]) -> bool {
+    vcommon::catch(|| {
+        let (mut x, mut y) = ([0u8; 131], [0u8; 131]);
+        a.finalize_xof().fill(&mut x);
+        b.finalize_xof().fill(&mut y);
+        let (mut a2, mut b2) = (a.clone(), b.clone());
+        a2.update(more);
+        b2.update(more);
+        a.count() == b.count() && a.finalize() == b.finalize() && x == y && a2.finalize() == b2.finalize() && a2.count() == b2.count()
+    }) == Ok(true)
+}
+
 #[allow(unused_variables)]
 pub fn adapter_checks(prev: &blake3::Hasher, succ: &blake3::Hasher, bytes: &[u8], rep: &mut Report) -> V {
     let want = subject::hasher_bytes(succ);
@@ -34,40 +51,39 @@ pub fn adapter_checks(prev: &blake3::Hasher, succ: &blake3::Hasher, bytes: &[u8]
             Ok(Err(e)) => return Some(("update_reader:error".into(), "Ok".into(), format!("Err({})", e))),
             Err(m) => return Some(("update_reader:panic".into(), "no panic".into(), m)),
         }
-        // update_reader feeds its 64 KiB buffer, so beyond that size it is a *sequence* of updates:
-        // the representation may differ (lazy merging), the observable state may not.
-        if bytes.len() <= 65536 {
-            if subject::hasher_bytes(&r) != want {
-                return Some(("update_reader:state-differs-from-update".into(), "same state as update".into(), "state differs".into()));
-            }
-        } else {
-            let same = vcommon::catch(|| {
-                let mut a = [0u8; 131];
-                let mut b = [0u8; 131];
-                r.finalize_xof().fill(&mut a);
-                succ.finalize_xof().fill(&mut b);
-                r.count() == succ.count() && r.finalize() == succ.finalize() && a == b
-            });
-            if same != Ok(true) {
-                return Some(("update_reader:result-differs-from-update".into(), "same count/hash/xof as update".into(), format!("{:?}", same)));
-            }
+        // update_reader is free to batch or split what it reads: judged on what is observable
+        if !same_observable(&r, succ, &bytes[..bytes.len().min(1500)]) {
+            return Some(("update_reader:result-differs-from-update".into(), "same count/hash/xof as update, also after more input".into(), "differs".into()));
         }
         rep.inc("adapter_reader_checks");
     }
     #[cfg(feature = "rayon")]
     {
-        if bytes.len() >= 2048 {
-            let mut r = prev.clone();
-            if let Err(m) = vcommon::catch(|| {
+        // update_rayon must be the same transition as update for every size (also the small ones,
+        // which never split) and every pool size: pools of 1, 2 and 4 threads in rotation
+        static POOLS: std::sync::OnceLock<Vec<rayon_core::ThreadPool>> = std::sync::OnceLock::new();
+        let pools = POOLS.get_or_init(|| [1usize, 2, 4].iter().map(|n| rayon_core::ThreadPoolBuilder::new().num_threads(*n).build().expect("pool")).collect());
+        let pool = &pools[(bytes.len() + prev.count() as usize) % pools.len()];
+        let mut r = prev.clone();
+        let forced = crate::subject::forced();
+        if let Err(m) = vcommon::catch(|| {
+            pool.install(|| {
+                // the forced level is a thread-local of the harness: carry it onto the pool's thread
+                crate::subject::force(forced);
                 r.update_rayon(bytes);
-            }) {
-                return Some(("update_rayon:panic".into(), "no panic".into(), m));
-            }
-            if subject::hasher_bytes(&r) != want {
-                return Some(("update_rayon:state-differs-from-update".into(), "same state as update".into(), "state differs".into()));
-            }
-            rep.inc("adapter_rayon_checks");
+                crate::subject::force(None);
+            });
+        }) {
+            return Some(("update_rayon:panic".into(), "no panic".into(), m));
         }
+        if EXACT_RAYON.load(std::sync::atomic::Ordering::SeqCst) {
+            if subject::hasher_bytes(&r) != want {
+                return Some(("update_rayon:state-differs-from-update".into(), "exactly the state update leaves".into(), "state differs".into()));
+            }
+        } else if !same_observable(&r, succ, &bytes[..bytes.len().min(1500)]) {
+            return Some(("update_rayon:result-differs-from-update".into(), "same count/hash/xof as update, also after more input".into(), "differs".into()));
+        }
+        rep.inc("adapter_rayon_checks");
     }
     None
 }
